@@ -605,14 +605,14 @@ def transform_fn(text, spec):
 
     # R11 exact textual rewrites (inside the body only); an absent source text is a lost anchor
     for frm, to in spec.get('rewrites', []):
-        if '{id}' in frm:
+        if '{id}' in frm or '.' in frm:
             # `{id}` stands for one identifier (so that a renamed receiver does not lose the anchor)
             rx = re.compile(re.escape(frm).replace(re.escape('{id}'), r'([A-Za-z_][A-Za-z0-9_]*)').replace(r'\.', r'\s*\.\s*'))     # method chains may be broken over lines
             hits = [mm for mm in rx.finditer(t) if sh.bopen < mm.start() < sh.bclose]
             if not hits:
                 raise ExtractError('R11: text to rewrite not found: %s' % frm)
             for mm in hits:
-                edits.append((mm.start(), mm.end(), to.replace('{id}', mm.group(1))))
+                edits.append((mm.start(), mm.end(), to.replace('{id}', mm.group(1)) if '{id}' in frm else to))
             continue
         start_at = sh.popen if frm.startswith('&') or '<' in frm else sh.bopen      # type texts may sit in the parameter list
         pos = t.find(frm, start_at)
